@@ -141,6 +141,10 @@ func bValue(class string, ver int) string {
 		return fmt.Sprintf("{\"k\": %d, \"j\": [%d]}", ver, ver*65536)
 	case "float":
 		return fmt.Sprintf("%d.5", ver)
+	case "intfloat":
+		// the same number as an int and as a float: equal in Starlark, printed differently
+		seq := []string{"1", "1.0", "2", "2.0", "0", "-0.0", "3"}
+		return seq[(ver-1)%len(seq)]
 	default:
 		return fmt.Sprintf("%d", ver)
 	}
